@@ -135,6 +135,30 @@ def signature_grids(tier, out, stats):
     items.append((("wb", 1, 16, 16, ()), (lambda: wishbone.Signature(addr_width=1, data_width=16)), None))
     items.append((("wb", 1, 16, 16, ("err",)), (lambda: wishbone.Signature(addr_width=1, data_width=16, features={wishbone.Feature.ERR})), None))
     allsigs += check_grid("wishbone.Signature", items, out, stats)
+    # the caller's feature collection is only read at construction: changing it afterwards changes nothing
+    for mk, grow in ((set, lambda c, v: c.add(v)), (list, lambda c, v: c.append(v))):
+        for base in ((), ("err",), ("err", "cti"), ("lock", "stall")):
+            for as_enum in (False, True):
+                for target in ("signature", "interface", "decoder", "arbiter"):
+                    extra = "rty"
+                    coll = mk((wishbone.Feature(f) if as_enum else f) for f in base)
+                    kw = dict(addr_width=2, data_width=16, granularity=8, features=coll)
+                    try:
+                        obj = dict(signature=lambda: wishbone.Signature(**kw), interface=lambda: wishbone.Interface(path=("x",), **kw).signature,
+                                   decoder=lambda: wishbone.Decoder(**kw).bus.signature, arbiter=lambda: wishbone.Arbiter(**kw).bus.signature)[target]()
+                        if target in ("decoder",):
+                            obj = obj.flip() if not isinstance(obj, wishbone.Signature) else obj
+                        grow(coll, wishbone.Feature(extra) if as_enum else extra)
+                        fresh = wishbone.Signature(addr_width=2, data_width=16, granularity=8, features=base)
+                        stats["evaluations"] += 1
+                        feats_now = {wishbone.Feature(f) for f in obj.features}
+                        if feats_now != {wishbone.Feature(f) for f in base} or extra in obj.members or not (obj == fresh) or not (fresh == obj) \
+                                or not (obj.create().signature == fresh):
+                            out.append(viol(f"wishbone {target} built from features={base} given as a {mk.__name__}: after the caller added "
+                                            f"{extra!r} to its own collection the signature reports features {sorted(f.value for f in feats_now)} "
+                                            f"(members {sorted(obj.members)}) and == fresh signature is {obj == fresh}", "param_aliasing"))
+                    except Exception as e:
+                        out.append(viol(f"wishbone {target} with features={base} as {mk.__name__}: {type(e).__name__}: {e}", "param_aliasing"))
     # event.Source.Signature
     items = [((("source", t)), (lambda t=t: event.Source.Signature(trigger=t)), dict(i=(1, False, "Out"), trg=(1, False, "In")))
              for t in ("level", "rise", "fall")]
